@@ -360,7 +360,7 @@ def run(s):
                             fails.append({"witness_id": "extract-exit:%d" % t, "input": {"variables": vars_, kind: float(y)}, "observed": "exit %s %r" % (res.exit_code, res.exception),
                                           "expected": "a table"})
                             break
-                        df = parse(res.output)
+                        df = parse(res.stdout)
                         j = int(numpy.argmin(numpy.abs(grid - y)))
                         msg = None
                         if list(df.columns) != list(vars_) or len(df) != len(other) or not numpy.allclose(df.index.to_numpy(dtype=float), other, rtol=1e-6, atol=1e-6):
@@ -383,7 +383,8 @@ def run(s):
                     break
                 pts = [(P[i], T[j]) for i in range(nP) for j in range(nT)]
                 rnd.shuffle(pts)
-                pts = pts[:8]
+                corners = [(P[0], T[0]), (P[-1], T[-1]), (P[0], T[-1]), (P[-1], T[0])]  # first and last tabulated row / column are inside the table
+                pts = corners + [q for q in pts if q not in corners][:6]
                 if style == "int" and not all(float(p).is_integer() for p, _ in pts):
                     continue
                 g = pandas.DataFrame({"P": [p for p, _ in pts], "T": [tt for _, tt in pts], "D": [660.0 + 10 * i for i in range(len(pts))]})
@@ -397,7 +398,15 @@ def run(s):
                 if res.exit_code != 0:
                     fails_g.append({"witness_id": "geotherm-exit:%d" % t, "input": {"style": style}, "observed": "exit %s %r" % (res.exit_code, res.exception), "expected": "a table"})
                     break
-                df = pandas.read_table(io.StringIO(res.output), sep=r"\s+")
+                try:
+                    df = pandas.read_table(io.StringIO(res.stdout), sep=r"\s+")
+                    missing = [c for c in ("P", "T", "D") + vars_ if c not in df.columns]
+                except Exception as e:  # noqa: BLE001 - an unreadable table is a verdict, not a checker crash
+                    df, missing = None, ["unreadable: %r" % (e,)]
+                if missing:
+                    fails_g.append({"witness_id": "geotherm-table:%s" % style, "input": {"style": style, "points": pts[:4]}, "observed": "standard output is not the geotherm table with the requested columns (%s): %r" % (missing, res.stdout[:200]),
+                                    "expected": "the geotherm's columns followed by one column per requested variable"})
+                    break
                 msg = None
                 if not numpy.allclose(df["P"], g["P"]) or not numpy.allclose(df["T"], g["T"]) or not numpy.allclose(df["D"], g["D"]):
                     msg = "the geotherm's own columns are not passed through unchanged"
@@ -428,7 +437,7 @@ def run(s):
                         if res.exit_code != 0:
                             fails_g.append({"witness_id": "geotherm-refine-exit", "input": {}, "observed": "exit %s %r" % (res.exit_code, res.exception), "expected": "a table"})
                             break
-                        df = pandas.read_table(io.StringIO(res.output), sep=r"\s+")
+                        df = pandas.read_table(io.StringIO(res.stdout), sep=r"\s+")
                         want = numpy.array([f2["c12s"](tt, p) for p, tt in gp])
                         errs.append(float(numpy.abs(df["c12s"].to_numpy(dtype=float) - want).max()))
                     finally:
